@@ -10,7 +10,7 @@ THEOREMS = ["C15_square_constant_assignments", "C15_square_eliminable", "C15_squ
             "C15_closed_eliminable", "C15_loop_closed_form", "C15_closed_eliminable_acyclic",
             "C15_closed_constant_assignments", "C15_closed_replace_parameter_values",
             "C15_closed_replace_expressions", "C15_closed_replace_constant_values", "C15_closed_detect_aliases",
-            "C15_closed_simplify_once_partial", "C15_closed_cyclic_refuted", "C15_example"]
+            "C15_vals_closed_checked", "C15_closed_simplify_once_partial", "C15_closed_cyclic_refuted", "C15_example"]
 
 
 def run(ctx):
